@@ -108,6 +108,7 @@ type Conn struct {
 	writeBuf       *bufio.Writer
 	seq            uint16
 	closed         bool
+	recvClosed     bool // readReady has been closed; guarded by readLock
 	stanzaWriter   *stanzaWriter
 	maxBufSize     int
 }
@@ -269,7 +270,15 @@ func (c *Conn) Close() error {
 	if err != nil {
 		return err
 	}
+	// The peer has acknowledged the close after sending whatever it still had
+	// for us. Data that arrives from now on is refused like data for any
+	// unknown session instead of being appended to a buffer that nobody reads
+	// (or sent on the channel that is closed below).
+	c.handler.rmStream(c.stanzaWriter.sid)
+	c.readLock.Lock()
+	c.recvClosed = true
 	close(c.readReady)
+	c.readLock.Unlock()
 	return respReadCloser.Close()
 }
 
